@@ -41,7 +41,7 @@ def main():
     for path in sys.argv[1:]:
         for e in json.load(open(path)):
             out = dict(status="known", property=e["property"], obligation=e["obligation"], kind=e["kind"], label=e["label"],
-                       site=e.get("site", ""), classes=e["classes"], what=what_for(e), example=e["example"])
+                       site=e.get("site", ""), classes=None, max_paths=e["paths"], what=what_for(e), example=e["example"])
             print(json.dumps(out, sort_keys=False))
 
 
